@@ -343,9 +343,22 @@ func check(id, tier string) int {
 	}
 	if cfg.race {
 		// free-running workload under the race detector (runtime monitoring part)
-		args := []string{"-wsim.prop", id, "-wsim.tier", tier, "-wsim.seed", fmt.Sprint(seed), "-wsim.race", "-wsim.out", outDir, "-wsim.budget", fmt.Sprint(tc.budget),
-			"-wsim.sites", filepath.Join(b.dir, "sites.json")}
-		out, err, timedOut := runEngine(b.binRace, time.Duration(tc.budget*2+300)*time.Second, args...)
+		// the race detector's own memory grows with every goroutine it has ever
+		// seen: the free-running runs are spread over several processes
+		chunks, per := 1, 200
+		if tier == "thorough" {
+			chunks, per = 10, 2000
+		}
+		var out string
+		var err error
+		timedOut := false
+		for ch := 0; ch < chunks && err == nil && !timedOut && !strings.Contains(out, "DATA RACE"); ch++ {
+			args := []string{"-wsim.prop", id, "-wsim.tier", tier, "-wsim.seed", fmt.Sprint(seed), "-wsim.race", "-wsim.out", outDir, "-wsim.budget", fmt.Sprint(tc.budget / float64(chunks)),
+				"-wsim.from", fmt.Sprint(ch * per), "-wsim.n", fmt.Sprint(per), "-wsim.sites", filepath.Join(b.dir, "sites.json")}
+			var o string
+			o, err, timedOut = runEngine(b.binRace, time.Duration(tc.budget*2/float64(chunks)+300)*time.Second, args...)
+			out += o
+		}
 		if timedOut {
 			// a hang of the free-running pass is judged after the deterministic
 			// part: if that part reports a violation (e.g. the deadlock itself),
